@@ -436,6 +436,56 @@ inline void packetRawHeaders(Ctx& c, Rng& r, int iterations)
     }
 }
 
+// TECMP payload members outside the field tables: LinPayload::setData (data + length written, pid kept, bytes read back),
+// CaptureModulePayload::getVoltage (derived from the two voltage bytes: whole + fraction / 100)
+inline void tecmpExtrasCase(Ctx& c)
+{
+    Rng r = c.fixedRng(7, 77);
+    for (int it = 0; it < 2000; ++it)
+    {
+        TECMP::LinPayload p;
+        uint8_t pid = r.byte();
+        p.setPid(pid);
+        size_t steps = r.range(1, 4);
+        for (size_t k = 0; k < steps; ++k)
+        {
+            Bytes d = r.bytes(k == 0 && it < 256 ? static_cast<size_t>(it) : r.below(256));
+            p.setData(d.data(), static_cast<uint8_t>(d.size()));
+            ++c.evaluations;
+            c.count("tecmp_lin_setdata_checks");
+            bool ok = p.getDataLength() == d.size() && p.getPid() == pid && p.getLength() == 2 + d.size() && (d.empty() || memcmp(p.getData(), d.data(), d.size()) == 0);
+            const uint8_t* raw = p.getRawPayload();
+            ok = ok && raw[0] == pid && raw[1] == d.size() && (d.empty() || memcmp(raw + 2, d.data(), d.size()) == 0);
+            if (!ok)
+            {
+                if (c.prop == "C11")
+                    c.violation("C11:read-back-differs:TECMP::LinPayload.setData", "data / length / pid do not read back after setData(" + std::to_string(d.size()) + " bytes)", "TECMP::LinPayload");
+                else
+                    c.violation("C12:field-not-at-layout-position:TECMP::LinPayload.data", "raw bytes after setData(" + std::to_string(d.size()) + " bytes): " + hex(raw, p.getLength(), 40), "TECMP::LinPayload");
+            }
+        }
+    }
+    c.feature("fields_exercised", "TECMP::LinPayload.setData");
+    for (unsigned w = 0; w < 256; ++w)
+        for (unsigned f = 0; f < 256; ++f)
+        {
+            TECMP::CaptureModulePayload p;
+            p.setVoltageFraction(static_cast<uint8_t>(f));
+            p.setVoltageWhole(static_cast<uint8_t>(w));
+            float v = p.getVoltage();
+            float e = static_cast<float>(w) + static_cast<float>(f) / 100.0f;
+            ++c.evaluations;
+            if (!(v == e))
+            {
+                char b[120];
+                snprintf(b, sizeof b, "getVoltage()=%g for voltage bytes whole=%u fraction=%u (expected %g)", static_cast<double>(v), w, f, static_cast<double>(e));
+                c.violation(c.prop == "C11" ? "C11:read-back-differs:TECMP::CaptureModulePayload.voltage" : "C12:field-not-at-layout-position:TECMP::CaptureModulePayload.voltage", b, "TECMP::CaptureModulePayload");
+            }
+        }
+    c.count("tecmp_voltage_checks", 65536);
+    c.feature("fields_exercised", "TECMP::CaptureModulePayload.getVoltage");
+}
+
 struct Index
 {
     std::vector<std::pair<size_t, size_t>> fields;  // (class, field)
@@ -456,7 +506,7 @@ inline long count(Ctx& c)
 {
     long single = static_cast<long>(index().fields.size()) * backgroundsFor(c.thorough());
     long seq = static_cast<long>(classes().size()) * (c.thorough() ? 40000 : 150);
-    return 2 + single + seq;
+    return 3 + single + seq;
 }
 inline void run(Ctx& c, long idx)
 {
@@ -464,7 +514,9 @@ inline void run(Ctx& c, long idx)
         return defaultsCase(c);
     if (idx == 1)
         return segMaskCase(c);
-    idx -= 2;
+    if (idx == 2)
+        return tecmpExtrasCase(c);
+    idx -= 3;
     long nb = backgroundsFor(c.thorough());
     long single = static_cast<long>(index().fields.size()) * nb;
     if (idx < single)
